@@ -227,16 +227,23 @@ def argsOk (args : List Str) : Bool :=
 /-- no mount option asks for a mount propagation mode -/
 def noPropagation (m : NApi.Mount) : Bool := m.options.all fun o => !Api.isPropagationOpt o
 
-/-- **Guard on one plugin's adjustment** (each clause is forced; witnesses in
-    `Props/C03.lean`). -/
-def wellFormed (a : NApi.Adjustment) : Bool :=
+/-- **Guard on one plugin's adjustment**, the part every family needs (each clause is
+    forced; witnesses in `Props/C03.lean`). -/
+def wellFormedCore (a : NApi.Adjustment) : Bool :=
   keysOk (a.annotations.map (·.1)) &&
   keysOk (a.mounts.map (·.destination)) &&
   keysOk (a.env.map (·.key)) &&
   (a.env.all fun e => !(e.key.contains '=')) &&
   keysOk (a.devices.map (·.path)) &&
-  argsOk a.args &&
-  (a.mounts.all noPropagation)
+  argsOk a.args
+
+abbrev WellFormedCore (a : NApi.Adjustment) : Prop := wellFormedCore a = true
+
+/-- **Guard of C03**: the core guard, and no mount asks for a propagation mode (with such an
+    option `AdjustMounts` can fail and raises the rootfs propagation; see
+    `C03_propagation` for what holds without this clause). -/
+def wellFormed (a : NApi.Adjustment) : Bool :=
+  wellFormedCore a && (a.mounts.all noPropagation)
 
 abbrev WellFormed (a : NApi.Adjustment) : Prop := wellFormed a = true
 
